@@ -66,6 +66,16 @@ def _other(cfg):
   return o
 
 
+def _other_tags(cfg):
+  """A copy whose tagged arguments carry one more tag (overlapping, different tag sets)."""
+  o = copy.deepcopy(cfg)
+  for b in [v for _, v in C.walk(o) if isinstance(v, fdl.Buildable)]:
+    for k, ts in b.__argument_tags__.items():
+      if ts:
+        ts.add(vtags.TagX if vtags.TagX not in ts else vtags.TagA)
+  return o
+
+
 def _p(cfg):
   from harness.gen import recipes
   info = recipes.ParamInfo(cfg.__fn_or_cls__)
@@ -101,6 +111,8 @@ APIS = {
     'dump_json': lambda c: serialization.dump_json(c),
     'dump_yaml': lambda c: yaml_serialization.dump_yaml(c),
     'build_diff_old': lambda c: diffing.build_diff(c, _other(c)),
+    'build_diff_old_tags': lambda c: diffing.build_diff(c, _other_tags(c)),
+    'build_diff_new_tags': lambda c: diffing.build_diff(_other_tags(c), c),
     'build_diff_new': lambda c: diffing.build_diff(_other(c), c),
     'apply_diff_new': lambda c: diffing.apply_diff(diffing.build_diff(_other(c), c), _other(c)),
     'skeleton_from_diff': lambda c: diffing.skeleton_from_diff(diffing.build_diff(c, _other(c))),
